@@ -233,6 +233,75 @@ def validate_traces(lines, workdir, name, shards=None, timeout=1800):
     return viol, stat, dist, gen
 
 
+def exec_table(binary, requests, outdir, name, timeout=1800):
+    os.makedirs(outdir, exist_ok=True)
+    inp = os.path.join(outdir, name + ".req.ndjson")
+    outp = os.path.join(outdir, name + ".tab.ndjson")
+    with open(inp, "w") as f:
+        for r in requests:
+            f.write(json.dumps(r, separators=(",", ":")) + "\n")
+    try:
+        p = subprocess.run([binary, "table", inp, outp], capture_output=True, text=True, timeout=timeout)
+    except subprocess.TimeoutExpired:
+        raise ToolError("table generation timed out")
+    if p.returncode != 0:
+        raise ToolError("harness table failed: " + p.stderr[-2000:])
+    with open(outp) as f:
+        lines = [l for l in f.read().split("\n") if l]
+    os.remove(inp)
+    os.remove(outp)
+    return lines
+
+
+def validate_rows(lines, workdir, name, timeout=3000, weight=None):
+    """validate table rows with TraceFn.tla; returns (bad rows, number of rows, states, transitions)"""
+    os.makedirs(workdir, exist_ok=True)
+    total = sum(len(l) for l in lines)
+    shards = max(1, min(12, total // 300000 + 1, len(lines) // 50 + 1))
+    bins = [[] for _ in range(shards)]
+    for i, l in enumerate(lines):
+        bins[i % shards].append((i, l))
+    files = []
+    for i, b in enumerate(bins):
+        if not b:
+            continue
+        fn = os.path.join(workdir, "%s.rows%d.ndjson" % (name, i))
+        with open(fn, "w") as f:
+            for (_, l) in b:
+                f.write(l + "\n")
+        files.append((fn, [j for (j, _) in b]))
+
+    def one(item):
+        fn, idx = item
+        rc, out, dt = run_tlc(os.path.join(SPEC, "TraceFn.tla"), os.path.join(SPEC, "TraceFn.cfg"), fn + ".md",
+                              env={"TRACE": fn}, timeout=timeout)
+        tags = parse_tagged(out)
+        if rc != 0 or "VIOL" not in tags or "STAT" not in tags:
+            keep = fn + ".tlcout"
+            with open(keep, "w") as f:
+                f.write(out)
+            raise ToolError("table validation failed to run to completion on %s (rc=%d); output kept at %s\n%s" % (fn, rc, keep, out[-3000:]))
+        bad = json.loads(tags["VIOL"][-1])
+        for b in bad:
+            b["row"] = idx[b["row"] - 1]
+        gen, dist = parse_states(out)
+        return bad, json.loads(tags["STAT"][-1])["rows"], gen, dist
+
+    bad, rows, gen, dist = [], 0, 0, 0
+    with ThreadPoolExecutor(max_workers=12) as ex:
+        for b, n, g, d in ex.map(one, files):
+            bad += b
+            rows += n
+            gen += g
+            dist += d
+    for fn, _ in files:
+        try:
+            os.remove(fn)
+        except OSError:
+            pass
+    return bad, rows, dist, gen
+
+
 def run_mc(module, workdir, workers=8, timeout=1800, env=None, extra=(), cfg=None):
     """Design-level model checking of an MC_* instance.  Failure is a tool error (exit 2), never a VIOLATION."""
     os.makedirs(workdir, exist_ok=True)
